@@ -159,7 +159,49 @@ def wait_ports(proc, ports, timeout=8.0):
         time.sleep(0.03)
     return False
 
+def run_occupied(out, binp, rng, hi):
+    """two or three listen addresses, one of which is held by another process: the server must not come up serving
+    only the others (it serves on EVERY address given, or not at all)"""
+    cfg = gen_config(rng)
+    while len(cfg['ports']) < 2:
+        cfg = gen_config(rng)
+    base = os.environ.get('VERIF_SCRATCH', '/dev/shm')
+    work = tempfile.mkdtemp(prefix='tcsc17', dir=base if os.path.isdir(base) else None)
+    datadir = os.path.join(work, 'data')
+    proc = None
+    which = rng.randrange(len(cfg['ports']))
+    holder = socket.socket()
+    try:
+        holder.setsockopt(socket.SOL_SOCKET, socket.SO_REUSEADDR, 0)
+        holder.bind(('127.0.0.1', cfg['ports'][which])); holder.listen(1)
+        argv, env = argv_env(cfg, datadir)
+        cli = cfg['cli']
+        exp = expected(cli)
+        allow = exp['allow']
+        out.write(f"run h={hi} setup=binary-occupied backend=sql entry=http binary=1 occupied=1 days={exp['days']} versions={exp['versions']} allow={'none' if allow is None else ','.join(allow)} clients=\n")
+        proc = start(binp, argv, env)
+        others = [p for i, p in enumerate(cfg['ports']) if i != which]
+        t0 = time.time(); exited = False
+        while time.time() - t0 < 4.0:
+            if proc.poll() is not None:
+                exited = True; break
+            if all(listening(p) for p in others) and time.time() - t0 > 1.0:
+                break
+            time.sleep(0.05)
+        up = [p for p in others if listening(p)] if not exited else []
+        out.write(f"# i=0 op=config occupied={cfg['ports'][which]} expected_ports={','.join(map(str, cfg['ports']))}\n")
+        state = 'failed' if exited else 'ok'
+        out.write(config_line(cli) + f" busy=127.0.0.1:{cfg['ports'][which]} => {state} listen={','.join('127.0.0.1:' + str(p) for p in up)} dir={datadir if os.path.isdir(datadir) else '-'} days=? versions=? allow=?\n")
+    finally:
+        holder.close()
+        if proc is not None and proc.poll() is None:
+            proc.kill(); proc.wait()
+        shutil.rmtree(work, ignore_errors=True)
+        out.write(f"end h={hi} dead=0\n")
+
 def run_config(out, binp, rng, hi):
+    if hi % 6 == 5:
+        return run_occupied(out, binp, rng, hi)
     cfg = gen_config(rng)
     base = os.environ.get('VERIF_SCRATCH', '/dev/shm')
     work = tempfile.mkdtemp(prefix='tcsc17', dir=base if os.path.isdir(base) else None)
